@@ -290,13 +290,19 @@ func receive(c *mon.C, sh []gen.Shape, rsvs []byte, side ref.Side, plan xport.Pl
 	stream, _, _ := gen.Encode(frames)
 	ms := &wsflate.MessageState{}
 	var interHdrs []ws.Header
-	rd := &wsutil.Reader{Source: xport.NewChunker(stream, plan), State: wsx.State(side, mode != 2, false), SkipHeaderCheck: mode != 0, Extensions: []wsutil.RecvExtension{ms}}
+	// the message state is one of possibly several negotiated extensions: alone, in front of / behind one that leaves
+	// the header as it is, in front of one that owns RSV2 (it sees, and passes on, that bit only)
+	same := wsutil.RecvExtensionFunc(func(h ws.Header) (ws.Header, error) { return h, nil })
+	chain := (mode/3 + len(sh) + int(rsvs[0])) % 4
+	mode %= 3
+	exts := [][]wsutil.RecvExtension{{ms}, {ms, same}, {same, ms}, {ms, same, same}}[chain]
+	rd := &wsutil.Reader{Source: xport.NewChunker(stream, plan), State: wsx.State(side, mode != 2, false), SkipHeaderCheck: mode != 0, Extensions: exts}
 	rd.OnIntermediate = func(h ws.Header, r io.Reader) error {
 		interHdrs = append(interHdrs, h)
 		_, err := io.Copy(io.Discard, r)
 		return err
 	}
-	det := map[string]interface{}{"frames": gen.ShapesKey(withRsv), "side": side, "plan": plan.String(), "consume": []string{"read", "discard", "read1+discard"}[consume], "reader": []string{"extended", "extended+SkipHeaderCheck", "SkipHeaderCheck, side bit only"}[mode]}
+	det := map[string]interface{}{"frames": gen.ShapesKey(withRsv), "side": side, "plan": plan.String(), "consume": []string{"read", "discard", "read1+discard"}[consume], "reader": []string{"extended", "extended+SkipHeaderCheck", "SkipHeaderCheck, side bit only"}[mode], "extension_chain": []string{"state", "state, identity", "identity, state", "state, identity, identity"}[chain]}
 	// reference walk
 	fi := 0 // index of the next frame the main loop will see
 	for {
@@ -417,7 +423,7 @@ func receive(c *mon.C, sh []gen.Shape, rsvs []byte, side ref.Side, plan xport.Pl
 			return false
 		}
 	}
-	c.Classf("ok|%s|side%d|mode%d", gen.ShapeClass(sh), side, mode)
+	c.Classf("ok|%s|side%d|mode%d|chain%d", gen.ShapeClass(sh), side, mode, chain)
 	return true
 }
 
@@ -452,7 +458,7 @@ func subReceive() mon.Sub {
 					rsvs[i] = byte(y % 8)
 					y /= 8
 				}
-				if !receive(c, sh, rsvs, side, plans[(x+c.I)%len(plans)], (x+c.I)%3, (x/3+c.I)%3) {
+				if !receive(c, sh, rsvs, side, plans[(x+c.I)%len(plans)], (x+c.I)%3, (x/3+c.I)%12) {
 					return
 				}
 			}
@@ -486,7 +492,7 @@ func subReceiveRandom() mon.Sub {
 				}
 			}
 			plans := xport.Plans(c.Rng.Int63(), nil)
-			receive(c, sh, rsvs, []ref.Side{ref.SideServer, ref.SideClient}[c.Rng.Intn(2)], plans[c.Rng.Intn(len(plans))], c.Rng.Intn(3), c.Rng.Intn(3))
+			receive(c, sh, rsvs, []ref.Side{ref.SideServer, ref.SideClient}[c.Rng.Intn(2)], plans[c.Rng.Intn(len(plans))], c.Rng.Intn(3), c.Rng.Intn(12))
 		},
 	}
 }
